@@ -280,7 +280,7 @@ func ones(n int) []byte {
 }
 
 // garbage: byte strings of every length 0..minimum+2 with zero / random / valid-prefix content
-func garbage(x *runner, t *target, prods []pair) {
+func garbage(x *runner, t *target, ti int, prods []pair) {
 	k := t.primary()
 	min := len(k.prefix()) + k.nonceLen() + k.tagLen()
 	pre := k.prefix()
@@ -290,7 +290,7 @@ func garbage(x *runner, t *target, prods []pair) {
 		pre = cat(t.envPrefix(), []byte{0, 0, 0, 1})
 	}
 	for l := 0; l <= min+2; l++ {
-		if !x.full && l > 6 && l < min-2 && (l+int(vt.Seed()))%3 != 0 {
+		if !(x.full && core(t, ti)) && l > 6 && l < min-2 && (l+int(vt.Seed()))%3 != 0 {
 			continue
 		}
 		x.decrypt(t, fmt.Sprintf("garbage:zero:%d", l), "none", make([]byte, l), nil, prods, false, nil)
@@ -314,13 +314,15 @@ func runC02(x *runner, t *target, ti int, mine []sealReq, sealed map[int][]byte)
 	isCore := x.full && core(t, ti)
 	lens := []int{1, 17}
 	if isCore {
-		lens = []int{1, 17, 0, 32}
+		lens = []int{1, 17, 0}
+	} else if x.full {
+		lens = []int{1}
 	}
 	for bi, n := range lens {
 		pt := content(x.r, n, bi+ti)
 		ad, _ := adOf(x.r, bi+ti+2)
 		if ct := x.encrypt(t, pt, ad); ct != nil {
-			bases = append(bases, base{ct, ad, pt, "tink", lay, (isCore && bi < 2) || (!x.full && bi == 0 && ti%2 == 0)})
+			bases = append(bases, base{ct, ad, pt, "tink", lay, (isCore && bi == 0) || (!x.full && bi == 0 && ti%2 == 0)})
 		}
 	}
 	for _, q := range mine {
@@ -344,7 +346,7 @@ func runC02(x *runner, t *target, ti int, mine []sealReq, sealed map[int][]byte)
 			x.decrypt(t, m.kind, b.src, m.ct, m.ad, prods, false, nil)
 		}
 	}
-	garbage(x, t, prods)
+	garbage(x, t, ti, prods)
 }
 
 // ------------------------------------------------------------------ replay of one recorded call
